@@ -163,20 +163,45 @@ def check_stoichiometry(ctx, f):
     need = ['inputs=list(OrderedDict.fromkeys(%s))' % a[1], 'input_coefs=[%s.count(i)foriininputs]' % a[1],
             'outputs=list(OrderedDict.fromkeys(%s))' % a[2], 'output_coefs=[%s.count(o)foroinoutputs]' % a[2]]
     miss = [n for n in need if n not in txt]
-    for lst, coefs, creator, var in (('inputs', 'input_coefs', 'createReactant', 'reactant'), ('outputs', 'output_coefs', 'createProduct', 'product')):
-        loops = [s for s in f.body if isinstance(s, ast.For) and src(s.iter).replace(' ', '') == 'range(len(%s))' % lst]
+    for lst, coefs, creator in (('inputs', 'input_coefs', 'createReactant'), ('outputs', 'output_coefs', 'createProduct')):
+        loops = [s_ for s_ in f.body if isinstance(s_, ast.For) and any(isinstance(c, ast.Call) and src(c.func) == 'reaction.%s' % creator for c in ast.walk(s_))]
         if len(loops) != 1:
-            miss.append('loop over %s' % lst)
+            miss.append('loop creating the %s references' % lst)
             continue
         lp = loops[0]
-        i = src(lp.target)
-        b = [util.stmt_key(s).replace(' ', '') for s in lp.body]
-        for n in ["species=str(%s[%s]).replace(\"'\",'')" % (lst, i), 'stoichiometry=%s[%s]' % (coefs, i), '%s=reaction.%s()' % (var, creator),
-                  '%s.setSpecies(species_id)' % var, '%s.setStoichiometry(stoichiometry)' % var]:
-            if n not in b:
-                miss.append('%s loop: %s' % (lst, n))
-        if not any(x in ('species_id=getSpeciesByName(model,species).getId()',) for x in b):
-            miss.append('%s loop: species id lookup' % lst)
+        it = src(lp.iter).replace(' ', '')
+        if it == 'range(len(%s))' % lst and isinstance(lp.target, ast.Name):
+            elem, coef = '%s[%s]' % (lst, lp.target.id), '%s[%s]' % (coefs, lp.target.id)
+        elif it == 'zip(%s,%s)' % (lst, coefs) and isinstance(lp.target, ast.Tuple) and len(lp.target.elts) == 2:
+            elem, coef = src(lp.target.elts[0]), src(lp.target.elts[1])
+        elif it == 'enumerate(%s)' % lst and isinstance(lp.target, ast.Tuple):
+            elem, coef = src(lp.target.elts[1]), '%s[%s]' % (coefs, src(lp.target.elts[0]))
+        else:
+            miss.append('%s references are created in a loop over %s' % (lst, src(lp.iter)))
+            continue
+        defs = util.single_defs(ast.Module(body=lp.body, type_ignores=[]))
+        for x in ast.walk(lp.target):
+            if isinstance(x, ast.Name):
+                defs.pop(x.id, None)        # the loop variables themselves stand for the element / its multiplicity
+        var = None
+        for s_ in lp.body:
+            if isinstance(s_, ast.Assign) and isinstance(s_.value, ast.Call) and src(s_.value.func) == 'reaction.%s' % creator:
+                var = src(s_.targets[0])
+        sets = [c for c in ast.walk(lp) if isinstance(c, ast.Call) and isinstance(c.func, ast.Attribute) and src(c.func.value) == var]
+        sp_call = [c for c in sets if c.func.attr == 'setSpecies']
+        st_call = [c for c in sets if c.func.attr == 'setStoichiometry']
+        if len(sp_call) != 1 or len(st_call) != 1:
+            miss.append('%s: setSpecies/setStoichiometry not called once on the new reference' % lst)
+            continue
+        sid = src(util.inline(sp_call[0].args[0], defs)).replace(' ', '')
+        want_sid = "getSpeciesByName(model,str(%s).replace(\"'\",'')).getId()" % elem
+        if sid != want_sid:
+            miss.append('%s: species of the reference is %s' % (lst, sid))
+        sto = src(util.inline(st_call[0].args[0], defs)).replace(' ', '')
+        if sto != coef.replace(' ', ''):
+            miss.append('%s: stoichiometry of the reference is %s, expected the multiplicity %s' % (lst, sto, coef))
+        if any(isinstance(x, (ast.Break, ast.Continue)) for x in ast.walk(lp)):
+            miss.append('%s: the loop can skip species' % lst)
     ctx.ob('R14.3-stoichiometry', 'references', not miss, where,
            'each distinct reactant/product gets one reference whose stoichiometry is its multiplicity in the reaction', str(miss) if miss else '')
 
